@@ -73,6 +73,18 @@ struct ModelDev
 };
 using Model = std::map<uint16_t, ModelDev>;
 
+// header fields a status message may legitimately carry: any common flags (a reassembled message keeps the segment bits of
+// its first segment), any version / stream / counter / segment type member
+void decorate(Packet& p, uint64_t ts)
+{
+    static const uint8_t flags[] = {0x00, 0x04, 0x08, 0x0C, 0x01, 0x02, 0x10, 0x20, 0x33, 0x3F, 0x80, 0xBF};
+    p.setCommonFlags(flags[ts % 12]);
+    p.setVersion(static_cast<uint8_t>(1 + ts % 3));
+    p.setStreamId(static_cast<uint8_t>(ts % 5));
+    p.setSequenceCounter(static_cast<uint16_t>(ts * 7));
+    p.setSegmentType(static_cast<ASAM::CMP::MessageHeader::SegmentType>((ts % 4) << 2));
+}
+
 Packet cmPacket(uint16_t dev, uint64_t ts)
 {
     ASAM::CMP::CaptureModulePayload pl;
@@ -83,6 +95,7 @@ Packet cmPacket(uint16_t dev, uint64_t ts)
     p.setDeviceId(dev);
     p.setTimestamp(ts);
     p.setVendorId(static_cast<uint16_t>(ts));
+    decorate(p, ts);
     return p;
 }
 Packet ifPacket(uint16_t dev, uint32_t ifid, uint64_t ts)
@@ -97,6 +110,7 @@ Packet ifPacket(uint16_t dev, uint32_t ifid, uint64_t ts)
     p.setDeviceId(dev);
     p.setTimestamp(ts);
     p.setInterfaceId(ifid);
+    decorate(p, ts);
     return p;
 }
 Packet dataPacket(uint16_t dev, uint64_t ts)
